@@ -15,8 +15,8 @@ different axes commute (`alongAxis_comm_linear`), which discharges `TensorLift.T
   every duplicate-free in-range axis tuple, all 8 flag combinations — **no hypothesis left**;
 * `fft2_energy_tensor_dft` — the normalised n-D `fft2` / `ifft2` preserve `Σ |x|²` over the tensor.
 
-**The single remaining assumption about the code's external transform** (not a hypothesis of any
-theorem here; it is what ties `torch.fft.fftn/ifftn(x, dim=dims, norm=…)` to `dftF`):
+**The single remaining assumption about the code's external transform** (it is not a hypothesis of
+any statement in this file; it is what ties `torch.fft.fftn/ifftn(x, dim=dims, norm=…)` to `dftF`):
 *`fftn` over `dims` is the composition of the 1-D DFTs along the axes of `dims`* (with the scale
 `1/√n_d` resp. `1`, `1/n_d` per axis).  The oracle of `harness/props/c01.py` checks exactly this
 numerically (`fftn` over a tuple vs sequential 1-D `fft`s vs the explicit DFT matrix, all norms).
